@@ -57,21 +57,25 @@ class Recorder:
         self.recs.append(d)
 
     # ---- constructors
-    def raw_coords(self, T, A, max_step):
-        """Raw coordinates on the /16 grid (as multiples of LC on the /N grid), shifted by whole lattice vectors."""
+    def raw_coords(self, T, A, max_step, closed=False):
+        """Raw coordinates on the /16 grid (as multiples of LC on the /N grid), shifted by whole lattice vectors.
+        closed: every atom retraces its path, ending exactly where it started (there-and-back motion: no NET displacement)."""
         rng = self.rng
         k = np.zeros((T, A, 3), dtype=np.int64)
         k[0] = rng.integers(0, BASE, size=(A, 3))
         for t in range(1, T):
             k[t] = k[t - 1] + rng.integers(-max_step, max_step + 1, size=(A, 3))
+        if closed:
+            for t in range(T // 2 + 1, T):
+                k[t] = k[T - 1 - t]
         k = np.mod(k, BASE) + BASE * rng.integers(-2, 3, size=(T, A, 3))
         return k * LC
 
-    def construct(self, T, A, max_step=3, species=None, like=None):
+    def construct(self, T, A, max_step=3, species=None, like=None, closed=False):
         from pymatgen.core import Element, Species
         from gemdat import Trajectory
         rng = self.rng
-        c = self.raw_coords(T, A, max_step)
+        c = self.raw_coords(T, A, max_step, closed)
         sp = species or [int(x) for x in rng.choice([0, 1, 2, 3, 4, 5] if rng.random() < 0.5 else [3, 4, 5, 1], size=A)]
         mk = Species if rng.random() < 0.5 else Element
         dt, temp = int(rng.integers(1, 4)), int(rng.integers(100, 900))
@@ -294,6 +298,11 @@ class Recorder:
         T = len(t)
         # rigid drift signal on the /16 grid, one grid unit per frame at most (total step stays below a quarter cell)
         inc = self.rng.integers(-1, 2, size=(T, 3))
+        if self.rng.random() < 0.4:                              # a shake that returns: no net translation over the run
+            for q in range(T // 2 + 1, T):
+                inc[q] = -inc[T - q]
+            if T % 2 == 0:
+                inc[T // 2] = 0
         inc[0] = self.rng.integers(-BASE, BASE, size=3)          # arbitrary constant offset, then at most one grid unit per frame
         g = np.cumsum(inc, axis=0) * LC
         pos = np.array(project(t)['pos'])
@@ -363,6 +372,8 @@ def random_behaviour(b, rng, family, orientation, n_steps, acts, max_objs=6, Tma
         if act == 'Construct':
             ok = not full and (rec.construct(int(rng.integers(2, Tmax + 1)), len(t.species), max_step,
                                              species=[SP_NAMES.index(s.symbol) for s in t.species]) is not None)
+        elif act == 'ConstructLoop':
+            ok = not full and (rec.construct(int(rng.integers(3, Tmax + 1)), int(rng.integers(1, Amax + 1)), max_step, closed=True) is not None)
         elif act == 'ConstructFaces':
             ok = not full and (rec.construct_faces(int(rng.integers(2, 6)), int(rng.integers(1, 4))) is not None)
         elif act == 'FaceProbe':
